@@ -1028,11 +1028,16 @@ func (g *Gen) run() {
 			if cl.Kind == "ensures" && retSuffixRe.MatchString(cl.Label) && !g.usedAxioms["rethit:"+cl.Label] {
 				g.errorf("%s: clause [%s] names a return that does not exist or is unreachable (returns are numbered in source order; %d returns)", g.fnLabel(), cl.Label, len(g.retOrdinal))
 			}
+			// a postcondition over local names that could be evaluated at no return at all (a name
+			// it uses no longer exists) would be silently vacuous too
+			if (cl.Kind == "ensures" || cl.Kind == "objinvariant") && strings.HasPrefix(cl.Label, "local") && !retSuffixRe.MatchString(cl.Label) && len(g.retOrdinal) > 0 && !g.usedAxioms[fmtf("posthit:%p", cl)] {
+				g.errorf("%s: clause [%s] could be evaluated at no return (a local name it uses is gone)", g.fnLabel(), cl.Label)
+			}
 			// likewise a call-site clause whose call does not occur in this function (calls made
 			// inside a function literal belong to that literal, `Outer$k`, not to Outer)
 			// (clauses labelled hint_* are proof aids — obligations of their own wherever they apply —
 			// and may lose their anchor without the property's clauses being affected)
-			if (cl.Kind == "assert" || cl.Kind == "mark") && cl.Call != "*" && !strings.HasPrefix(cl.Label, "hint_") && !g.usedAxioms[fmtf("clausehit:%p", cl)] {
+			if (cl.Kind == "assert" || cl.Kind == "mark" || cl.Kind == "setflag") && cl.Call != "*" && (cl.Kind == "setflag" || !strings.HasPrefix(cl.Label, "hint_")) && !g.usedAxioms[fmtf("clausehit:%p", cl)] {
 				g.errorf("%s: clause `at call %s` [%s] matches no call in this function", g.fnLabel(), cl.Call, cl.Label)
 			}
 		}
